@@ -258,7 +258,7 @@ func (in *inst) close() {
 
 // placement oracle: what the coordinator's own placement function answers for partition 0 now
 func (in *inst) place(cur map[string]cluster.NodeInfo) string {
-	info, _ := in.reg.GetNamespacePartInfo(nsName, 0)
+	info := in.reg.stored()
 	var first string
 	for i := 0; i < 3; i++ {
 		var l [][]string
@@ -325,7 +325,10 @@ func (in *inst) stateStr() string {
 	}
 	sort.Ints(ln)
 	ls := "-"
-	if v, err := in.reg.GetKV("placedriver:learner:need_start_learner:" + learnerRole); err == nil {
+	in.reg.mu.Lock()
+	v, okv := in.reg.kv["placedriver:learner:need_start_learner:"+learnerRole]
+	in.reg.mu.Unlock()
+	if okv {
 		ls = "0"
 		if v == "true" {
 			ls = "1"
@@ -333,9 +336,10 @@ func (in *inst) stateStr() string {
 	}
 	in.reg.mu.Lock()
 	rp := in.reg.meta.Replica
+	md := in.reg.mode
 	in.reg.mu.Unlock()
-	return fmt.Sprintf("reg[%s e=%d] wait=%s un=%d au=%d ne=%d st=%d dn=%s rn=%s fail=%d ln=%s ls=%s rp=%d up=%d", in.infoStr(&info), ep, w,
-		b(s.Unstable), b(s.AutoBalance), s.NodesEpoch, s.StableNodeNum, joinInts(dn), rns, fl, joinInts(ln), ls, rp, b(s.Upgrading))
+	return fmt.Sprintf("reg[%s e=%d] wait=%s un=%d au=%d ne=%d st=%d dn=%s rn=%s fail=%d ln=%s ls=%s rp=%d up=%d md=%d", in.infoStr(&info), ep, w,
+		b(s.Unstable), b(s.AutoBalance), s.NodesEpoch, s.StableNodeNum, joinInts(dn), rns, fl, joinInts(ln), ls, rp, b(s.Upgrading), md)
 }
 
 func (in *inst) writesStr() string {
@@ -355,8 +359,7 @@ func (in *inst) writesStr() string {
 }
 
 func (in *inst) freshInfo() *cluster.PartitionMetaInfo {
-	p, _ := in.reg.GetNamespacePartInfo(nsName, 0)
-	return p
+	return in.reg.stored()
 }
 
 // exec runs one event on the real coordinator; returns "ret | writes | state".
@@ -484,6 +487,11 @@ func (in *inst) exec(e *event) string {
 				close(closed)
 				in.coord.VerifProcessRemovingNodes(closed, st.RemovingNodes)
 			}
+		case "Y":
+			m, _ := strconv.Atoi(e.f[0])
+			in.reg.mu.Lock()
+			in.reg.mode = m
+			in.reg.mu.Unlock()
 		case "G":
 			// ChangeNamespaceMetaParam(newReplicator)
 			n, _ := strconv.Atoi(e.f[0])
